@@ -3,6 +3,7 @@ package zygo
 import (
 	"fmt"
 	"reflect"
+	"sort"
 	"time"
 )
 
@@ -417,17 +418,39 @@ func TypeListFunction(env *Zlisp, name string, args []Sexp) (Sexp, error) {
 	return env.NewSexpArray(s), nil
 }
 
+// sortedTypes lists the types of one registry table by name, so that
+// every interpreter interns the type names in the same order.
+func sortedTypes(m map[string]*RegisteredType) []*RegisteredType {
+	names := make([]string, 0, len(m))
+	for name := range m {
+		names = append(names, name)
+	}
+	sort.Strings(names)
+	types := make([]*RegisteredType, len(names))
+	for i, name := range names {
+		types[i] = m[name]
+	}
+	return types
+}
+
 func (env *Zlisp) ImportBaseTypes() {
-	for _, e := range GoStructRegistry.Builtin {
+	for _, e := range sortedTypes(GoStructRegistry.Builtin) {
 		env.AddGlobal(e.RegisteredName, e)
 	}
 
 	global := env.linearstack.elements[0].(*Scope)
-	for _, e := range GoStructRegistry.Userdef {
-		// The registry is shared by all interpreters of the process, and
-		// record names get registered as a side effect of making records
-		// ("field" by the first struct declaration, any Atype by a decode).
-		// Such a name must not replace a function of this interpreter.
+	for _, e := range sortedTypes(GoStructRegistry.Userdef) {
+		// Only the types the host registered with a Go struct behind them
+		// are bound in every interpreter. What scripts registered in some
+		// other interpreter (struct declarations, record names, the slice
+		// and pointer types derived on the fly) is that interpreter's
+		// business: binding it here (or merely interning its name) made a
+		// program's result, and the numbering of its generated names,
+		// depend on what earlier interpreters of the process had run.
+		if !e.hasShadowStruct {
+			continue
+		}
+		// Nor does a registered name replace a function of this interpreter.
 		if _, isFunc := global.Map[env.MakeSymbol(e.RegisteredName).number].(*SexpFunction); isFunc {
 			continue
 		}
